@@ -50,7 +50,12 @@ class Sys1:
         def dispbody(d=Option("D", "none")):
             return ("disp", d)
 
-        self.dispds = dataset(dispbody)
+        def dispbody_nd(d=Option("D")):
+            return ("disp", d)
+
+        # "dataset_nd": the dispatch is a dataset that cannot be evaluated when D is absent (no default): the
+        # dispatch value "cannot be determined" for a reason that is not this dataset's own missing key
+        self.dispds = dataset(dispbody_nd if dkind == "dataset_nd" else dispbody)
         if dkind == "key":
             disp = "D"
         elif dkind == "optdef":
@@ -68,7 +73,7 @@ class Sys1:
         self.impls = self._impls()
 
     def alias(self, a):
-        return ("disp", a) if self.dkind == "dataset" else a
+        return ("disp", a) if self.dkind in ("dataset", "dataset_nd") else a
 
     def _impls(self):
         from labrea import Option, Value, dataset
@@ -189,7 +194,7 @@ OPS = (
     + [("overload_list",), ("overload_stacked",), ("overload_single", "b"), ("set_dispatch",)]
     + [("evaluate", tuple(sorted(o.items()))) for o in DICTS]
 )
-VARIANTS = [(False, "key"), (True, "key"), (False, "optdef"), (False, "dataset"), (True, "dataset")]
+VARIANTS = [(False, "key"), (True, "key"), (False, "optdef"), (False, "dataset"), (True, "dataset"), (False, "dataset_nd"), (True, "dataset_nd")]
 
 
 def replay(variant, hist):
